@@ -153,7 +153,15 @@ Inductive label :=
                                 for file n finishes at once *)
 | FireDelete (p n : nat)     (* pinned code only: a watcher thread of p that has left the job lock
                                 (Fire) deletes whatever file is called n now *)
-| Resubmit (p j : nat).      (* the job identity j, finished, is submitted again by its scheduler *)
+| Resubmit (p j : nat)       (* the job identity j, finished, is submitted again by its scheduler *)
+| StartMid (p q j : nat)     (* Start p; while its __init__ is between its first _update and its second
+                                one (directory watch installed), process q acquires for job j; the
+                                second _update waits for token.lock, i.e. until q has written its file *)
+| DeliverRace (p i : nat) (rel : bool) (j : nat).
+                             (* the observer of p handles its i-th event, a deletion: its unlocked test
+                                "name in cache" passes, then it waits for the thread lock while the
+                                scheduler thread of p runs release (rel) / acquire for job j, whose
+                                _update rebuilds the cache; then the handler runs its locked part *)
 Inductive result := ROk | RLockError | RRaised.
 
 (* token.lock is not held by process p (its handlers and its kill are outside an acquire) *)
@@ -378,6 +386,8 @@ Definition core (V : variant) (C : cfg) (s : state) (l : label) : option (state 
                     (s_jobs s), ROk)
       else None
   | StartRace _ _ => None
+  | StartMid _ _ _ => None
+  | DeliverRace _ _ _ _ => None
   | FireDelete p n =>
       let pr := s_procs s p in
       if negb (v_fire V) && p_alive pr && mem (armed C n) (p_wat pr) then
@@ -431,6 +441,45 @@ Definition ghost_delete (C : cfg) (s : state) (n : nat) : option state :=
   then Some (mkS (s_lock s) (upd (s_disk s) n Absent) (emit (EDeleted n) (s_procs s)) (s_jobs s))
   else None.
 
+(* the acquire in progress (if any) writes its file and leaves token.lock *)
+Definition finish_write (V : variant) (C : cfg) (s : state) : state :=
+  match s_lock s with
+  | Some j => match core V C s (WriteF j) with Some (s', _) => s' | None => s end
+  | None => s
+  end.
+
+(* on_deleted (l.262-286) after its unlocked test `name in self.cache` has passed: under the thread
+   lock the entry is dropped if it is still there; in both cases the dependents are notified  *)
+Definition deleted_locked (V : variant) (C : cfg) (s : state) (p i : nat) : option (state * result) :=
+  let pr := s_procs s p in
+  if p_alive pr && p_obs pr && not_creating C s p then
+    match nth_error (p_evq pr) i with
+    | Some (EDeleted n) =>
+        match p_cache pr n with
+        | Some _ => core V C s (Deliver p i)
+        | None =>
+            Some (mkS (s_lock s) (s_disk s)
+                      (upd (s_procs s) p (mkProc (p_alive pr) (p_avail pr) (p_cache pr) (p_obs pr)
+                                                 (remove_nth i (p_evq pr)) (p_wat pr)))
+                      (notify C p (p_avail pr) (s_jobs s)), ROk)
+        end
+    | _ => None
+    end
+  else None.
+
+(* the second _update of CounterToken.__init__ (under token.lock), followed by the submission
+   of the jobs of that scheduler (their dependency.check())                                 *)
+Definition resync (V : variant) (C : cfg) (s : state) (p : nat) : option (state * result) :=
+  let s0 := sweep V C s (s_procs s p) in
+  let pr0 := s_procs s0 p in
+  if p_alive pr0 && lock_free s0 && parsable C s0 pr0 then
+    let pr := recount C s0 pr0 in
+    let jobs' := fun j => let js := s_jobs s0 j in
+      if Nat.eqb (c_owner C j) p && is_idle (j_ph js) && negb (j_orph js)
+      then set_ok js (c_cnt C j <=? p_avail pr) else js in
+    Some (mkS (s_lock s0) (s_disk s0) (upd (s_procs s0) p pr) jobs', ROk)
+  else None.
+
 (* CounterToken.__init__ runs _update (which starts the watcher threads) and only then
    installs the directory watch (l.219-230): a watcher that finishes in between deletes its
    file unseen by the new process (pinned code: Start, then silent_fire).  The repaired
@@ -452,6 +501,32 @@ Definition step (V : variant) (C : cfg) (s : state) (l : label) : option (state 
         | Some (s1, _) => silent_fire C s1 p n
         | None => None
         end
+  | StartMid p q j =>
+      if Nat.eqb q p then None else
+      match step1 V C s (Start p) with
+      | Some (s1, ROk) =>
+          match step1 V C s1 (Acquire q j) with
+          | Some (s2, _) => if v_watch V then resync V C (finish_write V C s2) p else Some (finish_write V C s2, ROk)
+          | None => None
+          end
+      | _ => None
+      end
+  | DeliverRace p i rel j =>
+      let pr := s_procs s p in
+      if p_alive pr && p_obs pr && not_creating C s p then
+        match nth_error (p_evq pr) i with
+        | Some (EDeleted n) =>
+            match p_cache pr n with
+            | Some _ =>
+                match step1 V C s (if rel then Release p j else Acquire p j) with
+                | Some (s1, _) => deleted_locked V C (finish_write V C s1) p i
+                | None => None
+                end
+            | None => None
+            end
+        | _ => None
+        end
+      else None
   | _ => step1 V C s l
   end.
 
